@@ -340,8 +340,13 @@ class KindEngine:
             for e in o.events:
                 if e[0] == "node" and e[1] == "Sequence":
                     lst = e[2].fields.get("__ctor__", {}).get("effects")
-                    for x in (lst if isinstance(lst, list) else [lst]):
-                        self.discard_site(f"{name}: Sequence element", x, carried, where)
+                    lst = lst if isinstance(lst, list) else [lst]
+                    flushed = e[2].fields.get("flushed")
+                    for pos, x in enumerate(lst):
+                        d = self.classify(x, carried)
+                        if d[0] == "H" and ((flushed == "SEQ_THEN_HYB" and pos == len(lst) - 1) or (flushed == "HYB_THEN_SEQ" and pos == 0)):
+                            continue  # its pending effect is sequenced right next to it by the flush of this very sequence
+                        self._discard(f"{name}: Sequence element", d, where)
         return res
 
     def discard_site(self, site, value, carried, where):
@@ -414,9 +419,45 @@ class KindEngine:
                 break
         else:
             self.errors.append("kind fixpoint did not converge")
-        # top level discard site
+        # top level discard site: run emit_final_seq_return on every kind a statement can have
         fb = self.idx.func("RZILTransformer.emit_final_seq_return")
         where = f"{fb.path.relative_to(self.idx.repo)}:{fb.node.lineno}"
-        for d in self.vals.get("stmt", set()):
-            self._discard("fbody (top-level Effect filter)", d, where)
+        for d in sorted(self.vals.get("stmt", set()), key=str):
+            for x in (d[1] if d[0] == "L" else [d]):
+                if x[0] == "H":
+                    if not self.top_level_takes_pending():
+                        self._discard("fbody (top-level Effect filter)", x, where)
+                else:
+                    self._discard("fbody (top-level Effect filter)", x, where)
         return self
+
+    def top_level_takes_pending(self) -> bool:
+        """does emit_final_seq_return sequence the pending effect of a top-level hybrid value at the statement's position?"""
+        r = Runner(self.idx, summarised=Runner.SUMMARISED | self.EXTRA_SUMMARISED)
+        box = {}
+
+        def args():
+            v = r.pure("items[0]", cls="LocalVar", pending=True)
+            r.stubs[("items[0]", "get_name")] = "h_tmp1"
+            s1 = r.pure("s1", cls="Effect")
+            box["s1"] = s1
+            return [[s1, v, r.pure("s2", cls="Effect")], ""]
+
+        def over():
+            pend = AObj("Sequence", {"name": "pending1"}, label="pending1", opaque=True)
+            box["p"] = pend
+            return {"il_ops_holder": AObj("ILOpsHolder", {"hybrid_effect_dict": {"h_tmp1": pend}, "hybrid_op_count": 2}, label="holder", opaque=True),
+                    "imm_set_effect_list": [], "code_format": Opaque("fmt")}
+
+        try:
+            fi, outs = r.run("emit_final_seq_return", args, self_over=over, args_list=True, max_runs=32)
+        except AnalysisError as e:
+            self.errors.append(f"emit_final_seq_return: {e}")
+            return False
+        ok = bool(outs)
+        for o in outs:
+            seqs = [e[2] for e in o.events if e[0] == "node" and e[1] == "Sequence"]
+            labels = [[getattr(x, "label", None) for x in (q.fields.get("__ctor__", {}).get("effects") or [])] for q in seqs]
+            if ["s1", "pending1", "s2"] not in labels:
+                ok = False
+        return ok
